@@ -26,12 +26,20 @@ type schedPlan struct {
 
 const schedDecisions = 48
 
-func drawSchedPlan(t *Tape) (*schedPlan, string) {
+func drawSchedPlan(t *Tape) (*schedPlan, string) { return drawSchedPlanN(t, schedDecisions, false) }
+
+// drawSchedPlanN: n scheduling decisions; long = runs with many tasks, where the preemption
+// gaps are also drawn from longer means so that the decisions are not used up before the tasks
+// have got anywhere.
+func drawSchedPlanN(t *Tape, n int, long bool) (*schedPlan, string) {
 	means := []float64{0, 1, 3, 10, 40}
+	if long {
+		means = []float64{3, 10, 40, 150, 600}
+	}
 	mi := t.Intn(len(means))
 	mean := means[mi]
 	p := &schedPlan{}
-	for i := 0; i < schedDecisions; i++ {
+	for i := 0; i < n; i++ {
 		v := t.Draw(65536)
 		switch {
 		case v == 0 || mean == 0:
@@ -40,7 +48,7 @@ func drawSchedPlan(t *Tape) (*schedPlan, string) {
 			u := float64(v) / 65536
 			p.gaps = append(p.gaps, int64(-math.Log(u)*mean))
 		}
-		p.picks = append(p.picks, int(t.Draw(8)))
+		p.picks = append(p.picks, int(t.Draw(64)))
 	}
 	// order of every map iteration the library performs in this run (0 = sorted keys)
 	ms := t.Draw(1 << 32)
@@ -566,9 +574,27 @@ func runC20(c *RunCtx) {
 		ntasks = 5 + t.Intn(4)
 	}
 	if t.Intn(16) == 0 {
-		// many goroutines inside the library at once (process-wide counters, limits, semaphores)
+		// many goroutines inside the library at once (process-wide counters, limits, semaphores),
+		// half of the time all inside the same kind of helper: messages with object lists
 		ntasks = 9 + t.Intn(8)
 		c.Probe("many-tasks")
+		if t.Intn(2) == 0 {
+			var ol []string
+			for _, n := range schema.Names {
+				for i := range schema.Types[n].Fields {
+					if schema.Types[n].Fields[i].Kind == "objlist" {
+						ol = append(ol, n)
+						break
+					}
+				}
+			}
+			if len(ol) > 0 {
+				collide = ol[t.Intn(len(ol))]
+				if g.cfg.ListCap < 3 {
+					g.cfg.ListCap = 3
+				}
+			}
+		}
 	}
 	var base any
 	plans := make([][]*parOp, ntasks)
@@ -601,7 +627,7 @@ func runC20(c *RunCtx) {
 			plans[ti] = append(plans[ti], op)
 		}
 	}
-	sp, sdesc := drawSchedPlan(t)
+	sp, sdesc := drawSchedPlanN(t, map[bool]int{false: schedDecisions, true: 256}[ntasks >= 9], ntasks >= 9)
 	c.Logf("%d tasks; scheduler: %s", ntasks, sdesc)
 	sched := simrt.NewSched(sp.NextGap, sp.Pick)
 	for ti := range plans {
